@@ -21,6 +21,7 @@ type Event struct {
 	Key      string           `json:"k,omitempty"`
 	Witness  json.RawMessage  `json:"w,omitempty"`
 	Reason   string           `json:"r,omitempty"`
+	Sub      *int             `json:"s,omitempty"` // sub-input the event belongs to (see Ctx.Mark)
 }
 
 // Ctx is handed to a property's Run function for one case.
@@ -32,6 +33,15 @@ type Ctx struct {
 	R      *Rand
 	Dir    string // scratch directory for this case (removed afterwards)
 	Replay bool
+
+	// Sub-inputs: a case that feeds many inputs to the code under test announces each with
+	// Mark before running it. When the process dies, the driver restarts the case behind the
+	// marked input (SubFrom); a replay of a death runs only the marked input (SubOnly).
+	SubFrom  int // skip sub-inputs below this index
+	SubOnly  int // -1: all
+	markPath string
+	curSub   *int
+	onMark   func() // restarts the CPU budget: it is per sub-input when a case marks them
 
 	mu       sync.Mutex
 	out      *json.Encoder
@@ -45,6 +55,23 @@ type Ctx struct {
 }
 
 func (c *Ctx) Thorough() bool { return c.Tier == "thorough" }
+
+// SkipSub says whether sub-input sub is outside what this run has to execute.
+func (c *Ctx) SkipSub(sub int) bool {
+	return sub < c.SubFrom || (c.SubOnly >= 0 && sub != c.SubOnly)
+}
+
+// Mark records (durably, before the input is run) which sub-input is about to run.
+func (c *Ctx) Mark(sub int, desc string) {
+	c.curSub = &sub
+	if c.onMark != nil {
+		c.onMark()
+	}
+	if c.markPath == "" {
+		return
+	}
+	_ = os.WriteFile(c.markPath, []byte(fmt.Sprintf("%d\t%d\t%s", c.Index, sub, desc)), 0o644)
+}
 
 // Pick returns q in the quick tier and t in the thorough tier.
 func (c *Ctx) Pick(q, t int) int {
@@ -134,7 +161,7 @@ func (c *Ctx) Violation(key string, witness any) {
 	if len(b) > 20000 {
 		b, _ = json.Marshal(string(b[:20000]) + "…")
 	}
-	c.emit(Event{T: "viol", Key: key, Witness: b})
+	c.emit(Event{T: "viol", Key: key, Witness: b, Sub: c.curSub})
 }
 
 func (c *Ctx) Violations() int { c.mu.Lock(); defer c.mu.Unlock(); return c.viols }
